@@ -6,7 +6,7 @@
    [global_projection] shows that every history of TrapSet API calls is such a
    history for each condition in play. *)
 From Yv Require Import Common.Base C11.Model C11.Spec C11.Proofs C11.ProofsB C11.ProofsC
-  C11.ProofsD C11.ProofsE C11.ProofsF C11.ScriptModel C11.ScriptSpec C11.ScriptProofs C11.Examples.
+  C11.ProofsD C11.ProofsE C11.ProofsF C11.ProofsG C11.ScriptModel C11.ScriptSpec C11.ScriptProofs C11.ScriptTerm C11.Examples.
 
 (* every history of API operations acts on each condition as a per-condition history *)
 Theorem global_projection : forall univ gops,
@@ -61,6 +61,36 @@ Example initially_ignored_immutable_nonvacuous :
   s_disp (run SIGINT Ignore [OSetAction SIGINT (ACommand 1) 1 false; OInternal SIGINT Catch]) = Catch
   /\ o_res (step SIGINT (OSetAction SIGINT (ACommand 1) 1 false) (init_st Ignore)) = RErrIgnored.
 Proof. exact (conj ex_noninteractive ex_locked_state). Qed.
+
+(* the complement: an interactive shell (override) may set any trap, also on a
+   signal ignored on entry; the action is merged with the internal disposition *)
+Theorem interactive_override_allowed : forall c init ops a tag,
+  c <> EXIT -> c <> SIGKILL -> c <> SIGSTOP -> init <> Catch ->
+  let st := run c init ops in
+  let x := step c (OSetAction c a tag true) st in
+  o_res x = ROk /\
+  exists e, s_ent (o_st x) = Some e /\ e_cur e = mkT a (User tag) false /\
+            e_parent e = None /\
+            e_internal e = match s_ent st with Some e0 => e_internal e0 | None => Default end /\
+            s_disp (o_st x) = dmax (e_internal e) (disp_of a).
+Proof. exact override_allowed_thm. Qed.
+
+(* and a signal that was not ignored on entry can always be trapped, whatever
+   happened before (internal dispositions, `trap -p`, subshell entries that make
+   the shell ignore it) *)
+Theorem not_ignored_on_entry_trappable : forall c ops a tag ovr,
+  c <> SIGKILL -> c <> SIGSTOP ->
+  o_res (step c (OSetAction c a tag ovr) (run c Default ops)) = ROk.
+Proof. exact trappable_thm. Qed.
+
+(* replay of the defect repaired by /repo b8d5cfe: with or without an earlier
+   read-only look (`trap -p INT`), an asynchronous subshell can trap SIGINT *)
+Theorem subshell_trap_accepted :
+  o_res (step SIGINT (OSetAction SIGINT (ACommand 1) 1 false)
+           (run SIGINT Default [OPeek SIGINT; OEnterSubshell true false])) = ROk
+  /\ o_res (step SIGINT (OSetAction SIGINT (ACommand 1) 1 false)
+              (run SIGINT Default [OEnterSubshell true false])) = ROk.
+Proof. exact subshell_trap_accepted_thm. Qed.
 
 (* entering a subshell: command traps reset (and remembered as parent state,
    the caught flag dropped), ignored ones kept, internal dispositions cleared
@@ -245,6 +275,23 @@ Theorem trap_runs_once_per_delivery_at_boundary_outside_known_finding :
   monitor true tbl trace dead = None.
 Proof. exact script_monitor_strict_thm. Qed.
 
+(* Termination of the loop that runs the traps of caught signals: if every
+   trap command of the script (also those inside actions) installs, for a
+   signal sg, an action that raises only signals numbered above sg, the model
+   never runs out of fuel (fuel >= number of raise commands in the table + 2).
+   Without the condition the real shell can loop forever (an action raising its
+   own signal); the model then answers OutOfFuel, outside the domain. *)
+Theorem trap_loop_terminates : forall tbl main bf,
+  rank_ok tbl main = true -> (enough_fuel tbl <= bf)%nat ->
+  run_script tbl bf main <> None.
+Proof. exact trap_loop_terminates_thm. Qed.
+
+Example trap_loop_terminates_nonvacuous :
+  rank_ok ex_tbl ex_main = true /\
+  script_ok loop_tbl loop_main = true /\ rank_ok loop_tbl loop_main = false /\
+  run_script loop_tbl 200 loop_main = None.
+Proof. exact ex_rank. Qed.
+
 Example trap_runs_nonvacuous :
   script_ok ex_tbl ex_main = true /\
   run_script ex_tbl 8 ex_main = Some (ex_trace, false) /\
@@ -256,6 +303,9 @@ Print Assumptions disposition_inv.
 Print Assumptions disposition_inv_global.
 Print Assumptions kill_stop_never_trapped.
 Print Assumptions initially_ignored_immutable.
+Print Assumptions interactive_override_allowed.
+Print Assumptions not_ignored_on_entry_trappable.
+Print Assumptions subshell_trap_accepted.
 Print Assumptions enter_subshell_spec.
 Print Assumptions syscall_only_on_change.
 Print Assumptions exit_condition_no_syscall.
@@ -269,3 +319,4 @@ Print Assumptions oracle_sound_outside_known_finding.
 Print Assumptions trap_runs_once_per_delivery_at_boundary_outside_known_finding.
 Print Assumptions trap_runs_once_per_delivery_at_boundary_partial.
 Print Assumptions trap_runs_once_per_delivery_at_boundary_refuted.
+Print Assumptions trap_loop_terminates.
